@@ -17,6 +17,10 @@ from earthkit.workflows import backends, fluent
 from earthkit.workflows.graph import Graph, Node, Output
 
 warnings.filterwarnings("ignore")
+try:  # xarray imports dask lazily on first use; do it once, before any per-case watchdog or fork
+    import dask.array  # noqa: F401
+except Exception:  # pragma: no cover
+    pass
 DIMNAMES = ["x", "y", "z"]
 LABELS = {"x": [10, 11, 12, 13, 14], "y": ["a", "b", "c"], "z": [0.5, 1.5]}
 
@@ -189,7 +193,7 @@ def apply_ref(r: RefAction, op: list, ishape_now) -> RefAction:
     if name == "map":
         return r.map(plus_one)
     if name in NPRED:
-        _, dim, bs, keep = op
+        _, dim, bs, keep = op[:4]
         return r.reduce(NPRED[name], dim, keep)
     if name == "reduce_first":
         return r.reduce(lambda xs: xs[0] * 1.0, op[1], False)
@@ -267,7 +271,9 @@ def apply_impl(a, op: list, r_before: RefAction):
     if name == "map":
         return a.map(plus_one)
     if name in NPRED:
-        _, dim, bs, keep = op
+        _, dim, bs, keep = op[:4]
+        if len(op) > 4:  # a backend keyword that changes nothing: must be accepted and passed through
+            return getattr(a, name)(dim=dim, batch_size=bs, keep_dim=keep, backend_kwargs={"keepdims": False})
         return getattr(a, name)(dim=dim, batch_size=bs, keep_dim=keep)
     if name == "reduce_first":
         return a.reduce(fluent.Payload(first_of), dim=op[1])
